@@ -37,7 +37,7 @@ package flight12
 //@ assume-pure CipherSuite.ID
 
 //@ func flight0Parse
-//@ watch selectEllipticCurve! FindMatchingCipherSuite!
+//@ watch selectEllipticCurve! FindMatchingCipherSuite! Version.Equal!
 //@ loop cipherSuites: offered-non-nil: forall(0, len(cipherSuites), func(k int) bool { return !isNil(cipherSuites[k]) })
 //@ loop cipherSuites: offered-fresh: fresh(cipherSuites)
 //@ loop cipherSuites: local-kept: forall(0, len(cfg.LocalCipherSuites), func(i int) bool { return !isNil(cfg.LocalCipherSuites[i]) })
@@ -50,7 +50,34 @@ package flight12
 //@ ensures suite-from-local-list: result0 != 0 ==> called("FindMatchingCipherSuite!") && sameSlice(argAs("FindMatchingCipherSuite!", 1, cfg.LocalCipherSuites), old(cfg.LocalCipherSuites))
 //@ ensures no-common-curve-aborts: called("selectEllipticCurve!") && !retBool("selectEllipticCurve!", 1) ==> result0 == 0 && result1 != nil && result1.Level == alert.Fatal && result2 != nil
 //@ ensures curve-from-both-lists: called("selectEllipticCurve!") ==> sameSlice(argAs("selectEllipticCurve!", 0, cfg.EllipticCurves), old(cfg.EllipticCurves))
-//@ ensures version-is-1-2: result0 != 0 ==> clientHello.Version.Major == 0xfe && clientHello.Version.Minor == 0xfd
+//@ ensures version-is-1-2: result0 != 0 ==> called("Version.Equal!") && retBool("Version.Equal!", 0) && argAs("Version.Equal!", 1, protocol.Version{}).Major == 0xfe && argAs("Version.Equal!", 1, protocol.Version{}).Minor == 0xfd
 //@ ensures ems-required: result0 != 0 && old(cfg.ExtendedMasterSecret) == dtlsconfig.RequireExtendedMasterSecret ==> state.ExtendedMasterSecret
-//@ ensures ems-never-when-disabled: old(cfg.ExtendedMasterSecret) == dtlsconfig.DisableExtendedMasterSecret && !old(state.ExtendedMasterSecret) ==> !state.ExtendedMasterSecret
+//@ ensures curve-is-the-selected-one: result0 != 0 && called("selectEllipticCurve!") ==> state.NamedCurve == retAs("selectEllipticCurve!", 0, state.NamedCurve)
+//@ ensures suite-is-the-selected-one: result0 != 0 ==> sameRef(state.CipherSuite, retAs("FindMatchingCipherSuite!", 0, state.CipherSuite))
+//@ loop #3: curve-stored: called("selectEllipticCurve!") ==> state.NamedCurve == retAs("selectEllipticCurve!", 0, state.NamedCurve)
+//@ loop #3: suite-stored: sameRef(state.CipherSuite, retAs("FindMatchingCipherSuite!", 0, state.CipherSuite)) && state.Common == old(state.Common)
+//@ loop #3: curve-ok-so-far: called("selectEllipticCurve!") ==> retBool("selectEllipticCurve!", 1) && sameSlice(argAs("selectEllipticCurve!", 0, cfg.EllipticCurves), old(cfg.EllipticCurves))
+//@ loop #3: config-kept: sameSlice(cfg.EllipticCurves, old(cfg.EllipticCurves))
+//@ end
+
+
+// Extended master secret (RFC 7627 5.2/5.3): a side configured to require it does not install keys
+// for, or accept the Finished of, an abbreviated handshake that did not negotiate it. Stated as a
+// precondition of the two resumption steps, so that it is proved at their call sites in the hello
+// parsers, in the state in which the call is made.
+//@ func handleResumption
+//@ requires ems-policy: cfg.ExtendedMasterSecret == dtlsconfig.RequireExtendedMasterSecret ==> state.ExtendedMasterSecret
+//@ end
+
+//@ func handleHelloResume
+//@ requires ems-policy: cfg.ExtendedMasterSecret == dtlsconfig.RequireExtendedMasterSecret ==> state.ExtendedMasterSecret
+//@ ensures negotiation-untouched: state.ExtendedMasterSecret == old(state.ExtendedMasterSecret) && state.NamedCurve == old(state.NamedCurve) && sameRef(state.CipherSuite, old(state.CipherSuite))
+//@ end
+
+// Client, ServerHello: the server's answers are re-checked against the client's own lists.
+//@ func flight3Parse
+//@ watch Version.Equal! FindMatchingCipherSuite!
+//@ ensures server-version-is-1-2: called("ciphersuite.ForID!") ==> called("Version.Equal!") && retBool("Version.Equal!", 0) && argAs("Version.Equal!", 1, protocol.Version{}).Major == 0xfe && argAs("Version.Equal!", 1, protocol.Version{}).Minor == 0xfd
+//@ ensures suite-not-offered-aborts: called("FindMatchingCipherSuite!") && !retBool("FindMatchingCipherSuite!", 1) ==> next == 0 && dtlsAlert != nil && err != nil
+//@ ensures suite-checked-against-own-list: called("handleResumption!") || (next == Flight5 && called("ciphersuite.ForID!")) ==> called("FindMatchingCipherSuite!") && retBool("FindMatchingCipherSuite!", 1) && sameSlice(argAs("FindMatchingCipherSuite!", 1, cfg.LocalCipherSuites), old(cfg.LocalCipherSuites))
 //@ end
